@@ -39,11 +39,21 @@ class LockStep:
         Returns None or a failure dict."""
         del C.EVENTS[:]
         self.ops.append(op)
+        before = self._manager_state() if op[0] == "query" else None
         try:
             self.runner.exec_op(op)
         except Exception as exc:  # the premise guarantees every expression evaluates
             return {"kind": "exception", "exc_type": type(exc).__name__, "exc": str(exc)[:500],
                     "run_order": self.run_order()}
+        if before is not None:
+            # a query is read-only: no task runs, no container write, definitions / index supports / registry unchanged
+            STATS["queries_checked"] = STATS.get("queries_checked", 0) + 1
+            ev = [e for e in C.EVENTS if e[0] in ("run", "w")]
+            after = self._manager_state()
+            if ev or after != before:
+                diff = [k for k in before if before[k] != after[k]]
+                return {"kind": "query-side-effect", "query": op[1], "events": ev[:4], "changed": diff,
+                        "before": {k: before[k] for k in diff}, "after": {k: after[k] for k in diff}, "run_order": self.run_order()}
         if exp is None:
             return None
         STATS["assignments_compared"] += 1
@@ -52,6 +62,13 @@ class LockStep:
             return {"kind": "mismatch", "mismatches": mism[:8], "n_mismatches": len(mism),
                     "run_order": self.run_order()}
         return None
+
+    def _manager_state(self):
+        from vlib import mgrmon
+        m = self.runner.mgr
+        sup = {n: sorted((str(k), sorted(map(str, v))) for k, v in d.items()) for n, d in mgrmon.index_supports(m).items()}
+        return dict(sup, tasks=sorted(map(str, m.tasks)), containers=sorted((str(k), id(v)) for k, v in m.containers.items()),
+                    frozen=bool(getattr(m, "_tree_frozen", False)))
 
     def run_order(self):
         return [e[1] for e in C.EVENTS if e[0] == "run"]
